@@ -230,7 +230,7 @@ class Mailbox:
         self.name = name
         self.id = None
         self.uid_vv = 0
-        self.mtime: int = 0
+        self.mtime: float = 0
         self.next_uid = 1
         self.num_msgs = 0
         self.num_recent = 0
@@ -3006,7 +3006,7 @@ class Mailbox:
     ##################################################################
     #
     @classmethod
-    async def get_actual_mtime(cls, mh: MH, name: str) -> int:
+    async def get_actual_mtime(cls, mh: MH, name: str) -> float:
         """
         Get the max of the mtimes of the actual folder directory and its
         .mh_sequences file.
@@ -3030,9 +3030,15 @@ class Mailbox:
             f = await aiofiles.open(str(seq_path), "w+")
             await f.close()
 
+        # NOTE: At the resolution the file system offers, not truncated to
+        #       whole seconds: what is added to a folder in the same second
+        #       as our last look at it (a delivery, or the messages an
+        #       interrupted RENAME of the inbox had already moved when the
+        #       server was killed) must still count as a change.
+        #
         path_mtime = await aiofiles.os.path.getmtime(str(path))
         seq_mtime = await aiofiles.os.path.getmtime(str(seq_path))
-        return max(int(path_mtime), int(seq_mtime))
+        return max(path_mtime, seq_mtime)
 
     #########################################################################
     #
